@@ -27,7 +27,8 @@ def shared_state_mutations(fn: ast.FunctionDef, shared_pred):
             if e.id in aliases:
                 return aliases[e.id]
             return e.id if shared_pred(e.id) else None
-        if shared_pred(src(e)):
+        # only a reference (attribute / element / slice) can denote shared storage; an arithmetic expression is a new value
+        if isinstance(e, (ast.Attribute, ast.Subscript, ast.Call)) and shared_pred(src(e)):
             return src(e)
         if isinstance(e, ast.Subscript):
             return root_of(e.value)
